@@ -98,7 +98,9 @@ def p1(R):
         if n.kind == 'stmt' and isinstance(n.ast, ast.Assign) and U(n.ast.value) == 'self._awaiting.remaining':
             rem = U(n.ast.targets[0])
     need(rem is not None, 'Parser.feed: outstanding count is not read from the awaitable')
-    ok = U(sl.lower) == 'pos' and U(sl.upper) in ('pos + %s' % rem, '%s + pos' % rem)
+    from .common import otext as _ot
+    RA = 'self._awaiting.remaining'
+    ok = U(sl.lower) == 'pos' and _ot(R, g, cd, sl.upper) in ('pos + %s' % rem, '%s + pos' % rem, 'pos + ' + RA, RA + ' + pos')
     R.ob('C02.P1a', 'chunk = data[pos:pos + outstanding]', ok, 'chunk = %s' % U(cd.ast.value), func=f, node=cd.ast)
     if ext:
         e = [c for c in ext[0].calls if c.func.attr == 'extend'][0]
@@ -159,18 +161,17 @@ def p1(R):
     need(len(snd2) == 1, 'Parser.feed: send in the read-until arm not found')
     sn2, sc2 = snd2[0]
     idx = U(fn.ast.targets[0])
+    from .common import header_end_checker, found_polarity, otext
+    is_hdr_end = header_end_checker(R, g, fn, idx)
     arg = sc2.args[0]
     ok = isinstance(arg, ast.Subscript) and U(arg.value) in bufnames and isinstance(arg.slice, ast.Slice) and arg.slice.lower is None \
-        and U(arg.slice.upper) == idx
+        and arg.slice.upper is not None and is_hdr_end(sn2, arg.slice.upper)
     R.ob('C02.P1b', 'the coroutine receives the bytes up to and including the terminator', ok, 'send(%s)' % U(arg), func=f, node=sc2)
-    incl = [n for n in arm2 if n.kind == 'stmt' and isinstance(n.ast, ast.AugAssign) and U(n.ast.target) == idx
-            and U(n.ast.value) in ('len(sep)', 'len(self._awaiting.sep)')]
-    R.ob('C02.P1b', 'terminator included in the unit', len(incl) == 1 and all_paths_pass(g, [fn], incl, [sn2], skip_edge=nx),
-         'index not advanced past the separator', func=f, node=sc2, construct='terminator inclusion')
     # re-entry of the tail: data, pos re-bound from the buffer tail before the buffer is cleared
     reb = [n for n in arm2 if n.kind == 'stmt' and isinstance(n.ast, ast.Assign) and U(n.ast.targets[0]) == data]
     ok = len(reb) == 1 and isinstance(reb[0].ast.value, ast.Subscript) and U(reb[0].ast.value.value) in bufnames \
-        and U(reb[0].ast.value.slice) == idx + ':'
+        and isinstance(reb[0].ast.value.slice, ast.Slice) and reb[0].ast.value.slice.upper is None \
+        and reb[0].ast.value.slice.lower is not None and is_hdr_end(reb[0], reb[0].ast.value.slice.lower)
     posr = [n for n in arm2 if n.kind == 'stmt' and isinstance(n.ast, ast.Assign) and U(n.ast.targets[0]) == 'pos' and U(n.ast.value) == '0']
     clears = [n for n in g.live_nodes() if n.kind == 'stmt' and ((isinstance(n.ast, ast.Delete) and U(n.ast.targets[0]).split('[')[0] in bufnames)
                                                                    or (isinstance(n.ast, ast.Expr) and U(n.ast.value).split('.clear')[0] in bufnames
@@ -183,8 +184,8 @@ def p1(R):
          'tail before the buffer is cleared): frames arriving in the same read as the HTTP response are lost or delayed',
          func=f, node=(reb[0].ast if reb else fc), construct='tail re-entry')
     lits = {(t, p) for (t, p, _) in guards_of(g, sn2)}
-    R.ob('C02.P1b', 'not-found path consumes the whole chunk and waits', any(t.startswith(idx + ' == -1') and not p for (t, p) in lits)
-         or any(t.startswith(idx + ' != -1') and p for (t, p) in lits), 'send under %s' % sorted(lits), func=f, node=sc2)
+    R.ob('C02.P1b', 'the coroutine is resumed only when the terminator was found', (idx + ' == -1', False) in lits,
+         'send under %s' % sorted(lits)[:6], func=f, node=sc2)
     # ---------------- P1c
     for c in clears:
         preds = [p for (p, l) in c.pred if not l.startswith('exc:')]
